@@ -53,6 +53,10 @@ type lresult struct {
 }
 
 func run(c *core.Ctx) int {
+	if os.Getenv("C20_ONLY") == "cross" { // development knob: only the cross-module scenario (cross.go)
+		xe, xn := crossRun(c)
+		return c.Finish(xe, xn, "development knob C20_ONLY=cross: cross-module listener scenario only; non-trivial = case observed an After event of a function outside the entry module")
+	}
 	n := c.N(1200, 60000)
 	rng := core.NewRng(c.Seed, 20)
 	var cases []json.RawMessage
@@ -101,10 +105,12 @@ func run(c *core.Ctx) int {
 			c.Sample(map[string]any{"case": cases[r.Index], "event_stream_head": lr.Sample})
 		}
 	}
+	// cross-module scenario (cross.go): distinct listener object per definition, 2-3 wasm modules + host module
+	crossRun(c)
 	c.Assume("tail calls: call depth is implementation-defined; event streams of programs that execute tail calls are not compared across engines, but every Before still needs its own After/Abort")
 	c.Assume("the stack iterator is only required to list the frames of the current api.Function.Call activation")
 	return c.Finish(evals, int64(c.DistinctN("programs_with_events")),
-		"call-heavy wgen programs x PRNG call scripts x listener sets {all functions, PRNG subset} x both engines; online bracket automaton + shadow stack, iterator vs shadow stack, params/results vs harness-known values and host-call log, cross-engine stream equality (non-tail-call programs), guest trace with vs without listeners; every 8th case: two runtimes sharing a CompilationCache each with its own recorder; non-trivial = program produced listener events")
+		"call-heavy wgen programs x PRNG call scripts x listener sets {all functions, PRNG subset} x both engines; online bracket automaton + shadow stack, iterator vs shadow stack, params/results vs harness-known values and host-call log, cross-engine stream equality (non-tail-call programs), guest trace with vs without listeners; every 8th case: two runtimes sharing a CompilationCache each with its own recorder; non-trivial = program produced listener events; plus (counters cross_*) hand-built cross-module scenario: 2-3 wasm modules + host module in one runtime, one listener object per definition, listener subsets, exact model of every event")
 }
 
 // ---------------------------------------------------------------------------
@@ -556,6 +562,9 @@ func runWith(p *wgen.Program, script []wrun.Step, compiler bool, mode int, subse
 }
 
 func child(mode string, in json.RawMessage) any {
+	if mode == "cross" {
+		return crossChild(in)
+	}
 	var lc lcase
 	json.Unmarshal(in, &lc)
 	r := core.NewRng(int64(lc.Seed), 9)
